@@ -6,6 +6,7 @@ import (
 	"os/exec"
 	"path/filepath"
 	"regexp"
+	"sync"
 	"sync/atomic"
 	"time"
 
@@ -22,26 +23,32 @@ import (
 var schedule int32
 var delaysTaken int64
 
+// per hook point: how often a delay was taken there (a tree that has lost a point must not pass as "held")
+var delaysAt sync.Map // point -> *int64
+
+func delayAt(point string, d time.Duration) {
+	atomic.AddInt64(&delaysTaken, 1)
+	v, _ := delaysAt.LoadOrStore(point, new(int64))
+	atomic.AddInt64(v.(*int64), 1)
+	time.Sleep(d)
+}
+
 func installHandoverHook() {
 	verifhook.Install(func(point string) {
 		switch atomic.LoadInt32(&schedule) {
 		case 1:
 			if point == "conn.write.done" {
-				atomic.AddInt64(&delaysTaken, 1)
-				time.Sleep(20 * time.Millisecond)
+				delayAt(point, 20*time.Millisecond)
 			}
 		case 3:
 			if point == "conn.write.written" {
-				atomic.AddInt64(&delaysTaken, 1)
-				time.Sleep(20 * time.Millisecond)
+				delayAt(point, 20*time.Millisecond)
 			}
 		case 2:
 			if point == "conn.read.enter" {
-				atomic.AddInt64(&delaysTaken, 1)
-				time.Sleep(time.Millisecond)
+				delayAt(point, time.Millisecond)
 			} else if point == "conn.write.enter" {
-				atomic.AddInt64(&delaysTaken, 1)
-				time.Sleep(5 * time.Millisecond)
+				delayAt(point, 5*time.Millisecond)
 			}
 		}
 	})
@@ -162,6 +169,14 @@ func handoverRun(r *vf.Run, a *app.App, me *refctl.Identity, acc app.StoredEntit
 	}
 	r.Count("handover_delays_taken", int(atomic.LoadInt64(&delaysTaken)))
 	r.Floor("handover_delays_taken", int(atomic.LoadInt64(&delaysTaken)), per)
+	for _, p := range []string{"conn.write.done", "conn.write.written", "conn.read.enter", "conn.write.enter"} {
+		n := 0
+		if v, ok := delaysAt.Load(p); ok {
+			n = int(atomic.LoadInt64(v.(*int64)))
+		}
+		r.Count("handover_delays_at_"+p, n)
+		r.Floor("delays taken at hook point "+p, n, per/2)
+	}
 }
 
 func oneHandover(r *vf.Run, a *app.App, me *refctl.Identity, acc app.StoredEntity, mode int) {
